@@ -61,6 +61,8 @@ func runBpCase(out *ndjson, c bpCase) {
 	cl.addBody("other")
 	block := &vBlock{height: bpHeight, body: body}
 	prevBlock := &vBlock{height: bpHeight - 1, body: "prev"}
+	prevRef := prevBlock.ReferenceTime()
+	cl.prevRefGiven = &prevRef
 	prevProof := (&protocol.BlockProofBuilder{BlockRef: &protocol.BlockRefBuilder{MessageType: protocol.LEAN_HELIX_COMMIT, InstanceId: clusterInstance, BlockHeight: bpHeight - 1},
 		RandomSeedSignature: []byte("prev-seed-signature")}).Build().Raw()
 	otherPrev := (&protocol.BlockProofBuilder{BlockRef: &protocol.BlockRefBuilder{MessageType: protocol.LEAN_HELIX_COMMIT, InstanceId: clusterInstance, BlockHeight: bpHeight - 1},
@@ -184,7 +186,7 @@ func runBpCase(out *ndjson, c bpCase) {
 	if c.soft {
 		mode = "soft"
 	}
-	out.emit(obj{"com": coms, "w": w, "proof": pa, "blk": blkAbs, "mode": mode, "result": result, "ids": ids, "canon": canon, "case": c.desc()})
+	out.emit(obj{"com": coms, "w": w, "proof": pa, "blk": blkAbs, "mode": mode, "result": result, "ids": ids, "canon": canon, "wrong_epoch": cl.wrongEpochAsked, "case": c.desc()})
 }
 
 func cmdBlockProof(args []string) int {
@@ -230,6 +232,14 @@ func cmdBlockProof(args []string) int {
 				c := base(ws, sg)
 				c.soft = soft
 				emit(c)
+			}
+			if mask == 0 { // signed by an outsider alone (a member of some other epoch's committee)
+				for _, soft := range []bool{false, true} {
+					c := base(ws, nil)
+					c.signers = []bpSigner{{nm, "ok"}}
+					c.soft = soft
+					emit(c)
+				}
 			}
 			if nm > 5 && mask%5 != 0 {
 				continue
